@@ -286,8 +286,8 @@ def decodeOp (j : Json) : M (Op Rat GRat) := do
     | "apodize" => do
       let dm ← dim; let kind ← kstr "kind"
       let keys ← jStrList (← jField kw "kwkeys"); let w ← jGList (← jField kw "w")
-      let valid ← jStrList (← jField kw "valid")
-      pure (.proc (fun d => d.apodize AR valid dm kind keys w) obj out)
+      -- the table of valid kinds is REGENERATED from dnplab/processing/apodization.py on every run
+      pure (.proc (fun d => d.apodize AR Dnp.Generated.windowKinds dm kind keys w) obj out)
     | "phase" => do
       let dm ← dim
       let tbl ← (← jArr (← jField kw "cis")).mapM jGList
@@ -329,6 +329,29 @@ def stepJ (s : Store) (j : Json) : M Out := do
          outcome := match r.err with | some e => "raise:" ++ e.toString | none => "ok",
          ret := r.ret.map gJ }
 
+/-! Float evaluation of the window formulas (the definitions the ℝ-theorems of C15 are about) -/
+def floatT : Dnp.Window.Transc Float :=
+  { exp := Float.exp, cos := Float.cos, sqrt := Float.sqrt, log := Float.log,
+    pi := 3.141592653589793, ofNat := fun n => n.toFloat, half := 0.5, hamA := 0.53836, hamB := 0.46164, c06 := 0.6 }
+
+def ratToFloat (q : Rat) : Float := Float.ofInt q.num / Float.ofNat q.den
+
+def windowJ (j : Json) : M Json := do
+  let kind ← jStr (← jField j "kind")
+  let x ← (← jRatList (← jField j "x")).mapM (fun q => pure (ratToFloat q))
+  let par (k : String) : M Float := do pure (ratToFloat (← jRat (← jField j k)))
+  let w ← match kind with
+    | "exponential" => do pure (Dnp.Window.exponential floatT x (← par "lw"))
+    | "gaussian" => do pure (Dnp.Window.gaussian floatT x (← par "lw"))
+    | "hann" => pure (Dnp.Window.hann floatT x.length)
+    | "hamming" => pure (Dnp.Window.hamming floatT x.length)
+    | "sin2" => pure (Dnp.Window.sin2 floatT x.length)
+    | "traf" => do pure (Dnp.Window.traf floatT x (← par "lw") (x.foldl (fun a b => if a < b then b else a) (x.headD 0)))
+    | "lorentz_gauss" => do pure (Dnp.Window.lorentzGauss floatT x (← par "lw") (← par "gauss_lw") (← par "gaussian_max"))
+    | _ => throw s!"unknown window {kind}"
+  pure (Json.mkObj [("outcome", Json.str "ok"),
+    ("bits", Json.arr (w.map (fun f => Json.str (toString f.toBits.toNat))).toArray)])
+
 partial def loop (h : IO.FS.Stream) (out : IO.FS.Stream) (s : Store) : IO Unit := do
   let line ← h.getLine
   if line.isEmpty then return ()
@@ -338,6 +361,12 @@ partial def loop (h : IO.FS.Stream) (out : IO.FS.Stream) (s : Store) : IO Unit :
     out.putStrLn (Json.compress (Json.mkObj [("outcome", Json.str ("driver-error:" ++ e))]))
     loop h out s
   | .ok j =>
+    if (j.getObjVal? "op").toOption == some (Json.str "window") then
+      match windowJ j with
+      | .ok r => do out.putStrLn (Json.compress r); loop h out s
+      | .error e => do
+        out.putStrLn (Json.compress (Json.mkObj [("outcome", Json.str ("driver-error:" ++ e))])); loop h out s
+    else
     match stepJ s j with
     | .error e => do
       out.putStrLn (Json.compress (Json.mkObj [("outcome", Json.str ("driver-error:" ++ e)), ("store", storeJ s)]))
